@@ -205,3 +205,34 @@ package tls
 //@   ensures inplace: cap(in) >= len(in) + n ==> arr(head) == arr(in) && off(head) == off(in)
 //@   ensures copied: cap(in) < len(in) + n ==> fresh(head)
 //@   ensures prefix: forall j in 0..len(in): head[j] == in[j]
+
+// C28: the AEAD wrapper used by TLS 1.3 and ChaCha20 suites XORs the sequence number into its nonce mask for the
+// duration of one Seal and restores it afterwards: sealing (what GetOutKeystream does) leaves the cipher state as it was.
+//@ spec xmask(cur, was, nonce, j, lo, hi) = ite(lo <= j && j < hi, cur == xor8(was, nonce[j]), cur == was)
+//@ func (*xorNonceAEAD).Seal
+//@   property C28
+//@   requires f != nil && f.aead != nil && len(nonce) <= 8
+//@   requires noalias: arr(out) != arr(f.nonceMask[0:12]) && arr(nonce) != arr(f.nonceMask[0:12]) && (isnil(out) || arr(out) != arr(nonce))
+//@   note len(nonce) <= 8: the mask has 12 bytes and the nonce is XORed in from offset 4 (callers pass the 8-byte sequence number)
+//@   ensures mask_restored: f.nonceMask[0] == old(f.nonceMask[0]) && f.nonceMask[1] == old(f.nonceMask[1]) && f.nonceMask[2] == old(f.nonceMask[2]) && f.nonceMask[3] == old(f.nonceMask[3]) && f.nonceMask[4] == old(f.nonceMask[4]) && f.nonceMask[5] == old(f.nonceMask[5]) && f.nonceMask[6] == old(f.nonceMask[6]) && f.nonceMask[7] == old(f.nonceMask[7]) && f.nonceMask[8] == old(f.nonceMask[8]) && f.nonceMask[9] == old(f.nonceMask[9]) && f.nonceMask[10] == old(f.nonceMask[10]) && f.nonceMask[11] == old(f.nonceMask[11])
+//@   ensures sealed: called(Seal, 0) && ret == callres(Seal, 0)
+//@   loop 0 invariant -1 <= $rangeindex && $rangeindex < len(nonce)
+//@   loop 0 invariant f.nonceMask[0] == old(f.nonceMask[0]) && f.nonceMask[1] == old(f.nonceMask[1]) && f.nonceMask[2] == old(f.nonceMask[2]) && f.nonceMask[3] == old(f.nonceMask[3])
+//@   loop 0 invariant xmask(f.nonceMask[4], old(f.nonceMask[4]), nonce, 0, 0, $k)
+//@   loop 0 invariant xmask(f.nonceMask[5], old(f.nonceMask[5]), nonce, 1, 0, $k)
+//@   loop 0 invariant xmask(f.nonceMask[6], old(f.nonceMask[6]), nonce, 2, 0, $k)
+//@   loop 0 invariant xmask(f.nonceMask[7], old(f.nonceMask[7]), nonce, 3, 0, $k)
+//@   loop 0 invariant xmask(f.nonceMask[8], old(f.nonceMask[8]), nonce, 4, 0, $k)
+//@   loop 0 invariant xmask(f.nonceMask[9], old(f.nonceMask[9]), nonce, 5, 0, $k)
+//@   loop 0 invariant xmask(f.nonceMask[10], old(f.nonceMask[10]), nonce, 6, 0, $k)
+//@   loop 0 invariant xmask(f.nonceMask[11], old(f.nonceMask[11]), nonce, 7, 0, $k)
+//@   loop 1 invariant -1 <= $rangeindex && $rangeindex < len(nonce)
+//@   loop 1 invariant f.nonceMask[0] == old(f.nonceMask[0]) && f.nonceMask[1] == old(f.nonceMask[1]) && f.nonceMask[2] == old(f.nonceMask[2]) && f.nonceMask[3] == old(f.nonceMask[3])
+//@   loop 1 invariant xmask(f.nonceMask[4], old(f.nonceMask[4]), nonce, 0, $k, len(nonce))
+//@   loop 1 invariant xmask(f.nonceMask[5], old(f.nonceMask[5]), nonce, 1, $k, len(nonce))
+//@   loop 1 invariant xmask(f.nonceMask[6], old(f.nonceMask[6]), nonce, 2, $k, len(nonce))
+//@   loop 1 invariant xmask(f.nonceMask[7], old(f.nonceMask[7]), nonce, 3, $k, len(nonce))
+//@   loop 1 invariant xmask(f.nonceMask[8], old(f.nonceMask[8]), nonce, 4, $k, len(nonce))
+//@   loop 1 invariant xmask(f.nonceMask[9], old(f.nonceMask[9]), nonce, 5, $k, len(nonce))
+//@   loop 1 invariant xmask(f.nonceMask[10], old(f.nonceMask[10]), nonce, 6, $k, len(nonce))
+//@   loop 1 invariant xmask(f.nonceMask[11], old(f.nonceMask[11]), nonce, 7, $k, len(nonce))
